@@ -38,6 +38,7 @@ Operands that Go converts with `rune(…)` are compared as integers (`Prog.wf` b
 -/
 import RegexVerif.Model.Code
 import RegexVerif.Model.MatchBuilder
+import RegexVerif.Model.Capacity
 
 namespace RegexVerif.VM
 open RegexVerif.Code RegexVerif.Generated.Opcodes RegexVerif
@@ -883,5 +884,22 @@ def _root_.RegexVerif.Code.Prog.wf (p : Prog) : Bool :=
     (match bs.getLast? with
      | none => false
      | some l => isOpAt p l .stop)
+
+/-! ## the capacity view (C13) -/
+
+/-- weight of every code position: at an instruction boundary the weight of its opcode in the table
+    computed from the regenerated per-case fingerprints (`Capacity.weight`), 0 inside an instruction -/
+def wsOf (p : Prog) : List Nat :=
+  (List.range p.codes.size).map fun pc =>
+    if ((p.boundaries).getD []).contains pc then
+      match fetch p pc with
+      | .ok w => Capacity.weight w.op
+      | .error _ => 0
+    else 0
+
+/-- everything the positions of the program can push between two storage checks fits into the
+    `4 * TrackCount` slots that a successful `ensureStorage` leaves free (hypothesis `Φ(0) ≤ need` of
+    `Capacity.TrackInv`; evaluated by leg W on every compiled program) -/
+def potOk (p : Prog) : Bool := decide (Capacity.phi (wsOf p) 0 ≤ 4 * p.trackcount)
 
 end RegexVerif.VM
